@@ -34,6 +34,9 @@ type C15Case struct {
 	// Staged: main.journal is on disk (and is first opened) without its include directives; a change
 	// then brings the buffer to its full text, so that all its includes join the workspace at once
 	Staged bool `json:"staged,omitempty"`
+	// Restored: main.journal is opened with its full text, then changed to the text without its
+	// include directives and changed back. Files and buffers end exactly as without the detour.
+	Restored bool `json:"restored,omitempty"`
 }
 
 func c15WithoutIncludes(j *m.Journal) *m.Journal {
@@ -88,6 +91,20 @@ func c15Battery(c *C15Case, dir string) ([]string, []string, error) {
 	}
 	if err := h.Quiesce(); err != nil {
 		return nil, nil, err
+	}
+	if c.Restored && !c.Staged {
+		if err := h.Change(uris[0], 2, []refclient.Change{{Text: m.Render(c15WithoutIncludes(c.WS.Files[0].Journal)).Text}}); err != nil {
+			return nil, nil, err
+		}
+		if err := h.Quiesce(); err != nil {
+			return nil, nil, err
+		}
+		if err := h.Change(uris[0], 3, []refclient.Change{{Text: disk[0].Text}}); err != nil {
+			return nil, nil, err
+		}
+		if err := h.Quiesce(); err != nil {
+			return nil, nil, err
+		}
 	}
 	if c.Staged {
 		if err := h.Change(uris[0], 2, []refclient.Change{{Text: disk[0].Text}}); err != nil {
@@ -201,6 +218,30 @@ func c15Check(c *C15Case, repeats int) ([]ev.Discrepancy, string, int) {
 			}
 		}
 	}
+	// the same files and buffers reached without the detour through other texts: same answers
+	if (c.Restored || c.Staged) && len(ds) == 0 {
+		plain := *c
+		plain.Restored, plain.Staged = false, false
+		direct, _, err := c15Battery(&plain, dir)
+		if err != nil {
+			return []ev.Discrepancy{ev.D("c15.harness", "%v", err)}, "", 0
+		}
+		how := "opened without its include directives and then changed to its full text"
+		if !c.Staged {
+			how = "changed to the text without its include directives and back"
+		}
+		for i := range first {
+			// published diagnostics are pushed when a notification arrives, for the document it names:
+			// those of another open document are not a function of the final state alone. Responses are.
+			if strings.HasPrefix(labels[i], "diagnostics ") {
+				continue
+			}
+			if i < len(direct) && first[i] != direct[i] {
+				ds = append(ds, ev.D("c15.history."+strings.Fields(labels[i])[0], "answer to %q depends on how the buffers came to their contents (main.journal %s):\n  with the detour: %.700s\n  opened directly: %.700s", labels[i], how, first[i], direct[i]))
+				break
+			}
+		}
+	}
 	// the digest compared across processes must not depend on the scratch directory
 	sum := sha256.Sum256([]byte(strings.ReplaceAll(strings.Join(first, "\x00"), dir, "<ws>")))
 	return ds, hex.EncodeToString(sum[:8]), len(first)
@@ -212,8 +253,21 @@ func genC15(t *rapid.T, p *gen.Profile) *C15Case {
 	if len(pools.Accounts) > 4 {
 		pools.Accounts = pools.Accounts[:4]
 	}
-	ws := gen.GenWorkspace(t, p, pools, gen.WSOpts{MinFiles: 2, MaxFiles: 4, AllReachable: true,
-		Journal: gen.JournalOpts{MinEntries: 2, MaxEntries: 5, Directives: true, TopComments: false, Tx: gen.TxOpts{MaxPostings: 5, MaxScale: 2, MaxDigits: 4}}})
+	jo := gen.JournalOpts{MinEntries: 2, MaxEntries: 5, Directives: true, TopComments: false, Tx: gen.TxOpts{MaxPostings: 5, MaxScale: 2, MaxDigits: 4}}
+	ws := gen.GenWorkspace(t, p, pools, gen.WSOpts{MinFiles: 2, MaxFiles: 4, AllReachable: true, Journal: jo})
+	nested := rapid.IntRange(0, 3).Draw(t, "nested") == 0
+	if nested {
+		// an include with includes of its own stands before a sibling: main -> a, b; a -> sub/c. Depth
+		// first (the order of a fresh resolution) gives a, sub/c, b; breadth first a, b, sub/c
+		jo.NoIncludes = true
+		ws = &gen.Workspace{Includes: [][]int{{1, 2}, {3}, nil, nil}}
+		for i := 0; i < 4; i++ {
+			ws.Files = append(ws.Files, gen.WSFile{Rel: gen.WSNames[i], Journal: gen.GenJournal(t, p, pools, jo)})
+		}
+		inc := func(path string) m.Entry { return m.Entry{Dir: &m.Directive{Kind: "include", Path: path}} }
+		ws.Files[0].Journal.Entries = append([]m.Entry{inc("a.journal"), inc("b.journal")}, ws.Files[0].Journal.Entries...)
+		ws.Files[1].Journal.Entries = append([]m.Entry{inc("sub/c.journal")}, ws.Files[1].Journal.Entries...)
+	}
 	// make sure one transaction is out of balance in several commodities
 	syms := append([]string{}, pools.Syms...)
 	for len(syms) < 3 {
@@ -238,6 +292,19 @@ func genC15(t *rapid.T, p *gen.Profile) *C15Case {
 				Body: []m.BodyItem{{P: &m.Posting{Account: pools.Accounts[i%len(pools.Accounts)], Amt: amt, Indent: "    ", Sep: "  "}},
 					{P: &m.Posting{Account: pools.Accounts[(i+1)%len(pools.Accounts)], Indent: "    ", Sep: "  "}}}}, Blank: 1})
 	}
+	// names that differ only in case, one spelling per included file, used equally often: their
+	// order in a completion list must not depend on the order in which the files were collected
+	payeeCase := []string{"AMAZON", "Amazon", "amazon"}
+	acctCase := []string{"Expenses:Food", "expenses:food", "EXPENSES:FOOD"}
+	for i := 1; i < len(ws.Files); i++ {
+		fj := ws.Files[i].Journal
+		fj.Entries = append(fj.Entries, m.Entry{Tx: &m.Tx{Date: m.Date{Y: 2030, M: 4, D: i, Sep: "-", Pad: true}, Payee: payeeCase[(i-1)%3],
+			Body: []m.BodyItem{{P: &m.Posting{Account: acctCase[(i-1)%3], Amt: gen.GenAmountFor(t, p, "ZZZ", m.Num{Mant: "1", Scale: 0}), Indent: "    ", Sep: "  "}},
+				{P: &m.Posting{Account: pools.Accounts[0], Indent: "    ", Sep: "  "}}}}, Blank: 1})
+	}
+	f0.Entries = append(f0.Entries, m.Entry{Tx: &m.Tx{Date: m.Date{Y: 2030, M: 4, D: 9, Sep: "-", Pad: true}, Payee: "amaz",
+		Body: []m.BodyItem{{P: &m.Posting{Account: "expenses:fo", Amt: gen.GenAmountFor(t, p, "ZZZ", m.Num{Mant: "1", Scale: 0}), Indent: "    ", Sep: "  "}},
+			{P: &m.Posting{Account: "expenses:fo", Indent: "    ", Sep: "  "}}}}, Blank: 1})
 	f0.Entries = append(f0.Entries,
 		m.Entry{Tx: &m.Tx{Date: m.Date{Y: 2030, M: 3, D: 1, Sep: "-", Pad: true}, Payee: "uses zzz",
 			Body: []m.BodyItem{{P: &m.Posting{Account: pools.Accounts[0], Amt: gen.GenAmountFor(t, p, "ZZZ", m.Num{Mant: "15", Scale: 1}), Indent: "    ", Sep: "  "}},
@@ -253,6 +320,7 @@ func genC15(t *rapid.T, p *gen.Profile) *C15Case {
 		c.Open = append(c.Open, 2)
 	}
 	c.Staged = rapid.IntRange(0, 2).Draw(t, "staged") == 0
+	c.Restored = !c.Staged && rapid.IntRange(0, 1).Draw(t, "restored") == 0
 	return c
 }
 
@@ -267,7 +335,8 @@ func TestC15(t *testing.T) {
 	rapid.Check(t, func(t *rapid.T) {
 		c := genC15(t, profileFor(recC15))
 		ds, digest, n := c15Check(c, c15Repeats())
-		recC15.Case(true, mustJSON(c), fmt.Sprintf("root:%v", c.Root), fmt.Sprintf("open:%d", len(c.Open)))
+		recC15.Case(true, mustJSON(c), fmt.Sprintf("root:%v", c.Root), fmt.Sprintf("open:%d", len(c.Open)), fmt.Sprintf("history:staged=%v,restored=%v", c.Staged, c.Restored),
+			fmt.Sprintf("nested-include-before-sibling:%v", len(c.WS.Includes) == 4 && len(c.WS.Includes[0]) == 2 && len(c.WS.Includes[1]) == 1 && c.WS.Includes[1][0] == 3))
 		recC15.Count("answers_compared", int64(n*c15Repeats()))
 		if recC15.WantSample() {
 			var sb strings.Builder
